@@ -192,8 +192,8 @@ static void stabs_case(Rng &rng, Stats &st, uint64_t k) {
     // start from a consistent independent list (Z outputs of a random Clifford), then perturb
     size_t take = rng.chance(0.6) ? n : rng.below(n + 1);
     for (size_t i = 0; i < take; i++) stabs.push_back(PauliString<W>(T.zs[i]));
-    int mode = (int)rng.below(6);
-    const char *modes[] = {"clean", "redundant", "contradictory", "anticommuting", "shuffled-products", "clean"};
+    int mode = (int)rng.below(8);
+    const char *modes[] = {"clean", "redundant", "contradictory", "anticommuting", "shuffled-products", "clean", "rank-deficient-padded", "identity-padded"};
     if (mode == 1 && stabs.size() >= 2) {
         auto p = stabs[0];
         p.ref() *= stabs[1].ref();
@@ -208,26 +208,39 @@ static void stabs_case(Rng &rng, Stats &st, uint64_t k) {
     } else if (mode == 4 && stabs.size() >= 2) {
         for (size_t i = 1; i < stabs.size(); i++)
             if (rng.chance(0.5)) stabs[i].ref() *= stabs[i - 1].ref();
+    } else if (mode == 6 || mode == 7) {
+        // fewer independent generators than qubits, but at least as many list entries as qubits
+        size_t rank = rng.below(n);
+        if (stabs.size() > rank) stabs.erase(stabs.begin() + rank, stabs.end());
+        while (stabs.size() < n + rng.below(3)) {
+            PauliString<W> p(n);
+            if (mode == 6 && !stabs.empty()) {
+                p = stabs[rng.below(stabs.size())];
+                if (rng.chance(0.5)) p.ref() *= stabs[rng.below(stabs.size())].ref();
+            }
+            stabs.insert(stabs.begin() + rng.below(stabs.size() + 1), p);
+        }
     }
-    bool ar = rng.chance(0.5), au = rng.chance(0.5);
     st.hit(std::string("stabs.") + modes[mode]);
-    std::string q = std::string("tab stabs ") + (ar ? "1" : "0") + " " + (au ? "1" : "0") + " " + std::to_string(stabs.size());
     std::string desc;
-    for (auto &s : stabs) {
-        q += " " + ps_str<W>(s);
-        desc += " " + s.str();
-    }
-    out_case(k, "stabs W=" + std::to_string(W) + " redundant_ok=" + std::to_string(ar) + " under_ok=" + std::to_string(au) + desc);
+    for (auto &s : stabs) desc += " " + s.str();
+    out_case(k, "stabs W=" + std::to_string(W) + desc);
     if (stabs.empty()) return;
-    try {
-        auto R = stabilizers_to_tableau<W>(stabs, ar, au, false);
-        out_q(q + " " + wire_tab<W>(R), "ok");
-        st.hit("stabs.accepted");
-        auto Ri = stabilizers_to_tableau<W>(stabs, ar, au, true);
-        out_q("tab isinv " + wire_tab<W>(R) + " " + wire_tab<W>(Ri), "1");
-    } catch (const std::invalid_argument &e) {
-        out_q(q + " reject", "ok");
-        st.hit("stabs.rejected");
+    // every combination of the two permission flags
+    for (int flags = 0; flags < 4; flags++) {
+        bool ar = flags & 1, au = flags & 2;
+        std::string q = std::string("tab stabs ") + (ar ? "1" : "0") + " " + (au ? "1" : "0") + " " + std::to_string(stabs.size());
+        for (auto &s : stabs) q += " " + ps_str<W>(s);
+        try {
+            auto R = stabilizers_to_tableau<W>(stabs, ar, au, false);
+            out_q(q + " " + wire_tab<W>(R), "ok");
+            st.hit("stabs.accepted");
+            auto Ri = stabilizers_to_tableau<W>(stabs, ar, au, true);
+            out_q("tab isinv " + wire_tab<W>(R) + " " + wire_tab<W>(Ri), "1");
+        } catch (const std::invalid_argument &e) {
+            out_q(q + " reject", "ok");
+            st.hit("stabs.rejected");
+        }
     }
 }
 
